@@ -298,7 +298,7 @@ func main() {
 		if q.Y.Bit(0) == 1 || rp.Y.Bit(0) == 1 {
 			R.NT(h)
 		}
-		if m := runSign(j.d, j.aux, j.msg, j.route, j.mode); m != "" {
+		if m := mc.Safe(func() string { return runSign(j.d, j.aux, j.msg, j.route, j.mode) }); m != "" {
 			R.Mismatch(fmt.Sprintf("sign/msglen=%d/route=%d", len(j.msg), j.route), "sign", m, mc.D{"d": mc.HexBig(j.d), "aux": mc.Hex(j.aux), "msg": mc.Hex(j.msg), "route": j.route, "mode": j.mode})
 		}
 	})
